@@ -3,7 +3,7 @@
    stay Coq datatypes.  No Extract Constant. *)
 From Coq Require Extraction.
 From Coq Require ExtrOcamlBasic.
-From PasfmtVerif Require Import Model.Token Model.Reconstruct Model.Rewriters Model.Toggle Model.Canon Model.DirectiveTree Model.Cursor Model.MLString Model.MLValue Model.Lines Model.Lexer Model.Spacing Model.FmtData Model.Encoding Model.FileIO Model.ParserKernel Model.Generics Model.Requirements Model.WrapApply Model.LineConsolidators Model.Measure Model.ParserGrammar Model.WrapContexts Model.WrapSearch Model.WrapFormat Model.Format Proofs.FormatProofs Proofs.FormatEofProofs.
+From PasfmtVerif Require Import Model.Token Model.Reconstruct Model.Rewriters Model.Toggle Model.Canon Model.DirectiveTree Model.Cursor Model.MLString Model.MLValue Model.Lines Model.Lexer Model.Spacing Model.FmtData Model.Encoding Model.FileIO Model.ParserKernel Model.Generics Model.Requirements Model.WrapApply Model.LineConsolidators Model.Measure Model.ParserGrammar Model.WrapContexts Model.WrapSearch Model.WrapFormat Model.Format.
 (* join lives in the proofs file of the multi-line string unit; re-stated here for the oracle *)
 Module MLStringJoin.
   Fixpoint join (nl : bytes) (ls : list bytes) : bytes :=
